@@ -193,6 +193,7 @@ def policy_file_leg(ck, tier, rnd):
     runs = [('all lines', full, 2 if tier == 'quick' else 3, '{<<>>, <<"name", "version">>}')]
     runs.append(('interacting lines', INTERACTING, 3 if tier == 'quick' else 4, '{<<"name", "version">>}' if tier == 'quick' else '{<<>>, <<"name", "version">>}'))
     seen = set()
+    expected = {}
     total = 0
     for label, vocab, maxlines, headers in runs:
         cfg = ('SPECIFICATION Spec\nCONSTANTS\n Vocabulary = {%s}\n MaxLines = %d\n Headers <- HeadersDef\n' % (', '.join('"%s"' % t for t in vocab), maxlines)
@@ -209,6 +210,7 @@ def policy_file_leg(ck, tier, rnd):
             if toks in seen:
                 continue
             seen.add(toks)
+            expected[toks] = c['obj']
             total += 1
             ck.evaluated()
             text = '\n'.join(LINES[t] for t in toks) + '\n'
@@ -263,31 +265,18 @@ def policy_file_leg(ck, tier, rnd):
                 ck.cov['traces_validated_against_impl'] += 1
                 ck.nontrivial(('policy-file', toks))
     ck.notes.append('policy-file leg: %d distinct files replayed into Policy(policy_data=...)' % total)
-    policy_file_cli_leg(ck, tier, rnd, sorted(seen))
+    policy_file_cli_leg(ck, tier, rnd, expected)
 
 
-def policy_file_cli_leg(ck, tier, rnd, files):
+def policy_file_cli_leg(ck, tier, rnd, expected):
     """A sample of the enumerated files through the command line: refused => the error status and no connection at all; loaded =>
     the audit runs and the verdict is the one the loaded fields imply for a fixed server (ciphers / host key sizes / moduli)."""
     import os
     import shutil
     import tempfile
-    want_of = {}
-    res = None
     n = 60 if tier == 'quick' else 400
-    sample = rnd.sample(files, min(n, len(files)))
-    # expected status straight from the model (re-evaluated by TLC for exactly these files would be the same records: reuse Load via a tiny run)
-    mod = ('---- MODULE MC_SshPolicyFileCli ----\nEXTENDS SshPolicyFile\nFiles == %s\nEmitAll == PrintT(ToJson([f \\in 1..Len(Files) |-> [file |-> Files[f], obj |-> Load(Files[f])]]))\n'
-           'ASSUME EmitAll\n====\n' % ('<<' + ', '.join('<<' + ', '.join('"%s"' % t for t in f) + '>>' for f in sample) + '>>'))
-    cfg = 'SPECIFICATION Spec\nCONSTANTS\n Vocabulary = {"name"}\n MaxLines = 0\n Headers <- HeadersDef\n'
-    mod = mod.replace('Files ==', 'HeadersDef == {<<>>}\nFiles ==')
-    res = tlc.run('MC_SshPolicyFileCli', cfg, generated={'MC_SshPolicyFileCli.tla': mod}, workers=1, timeout=600)
-    ck.add_tlc(res)
-    common.require(res.ok, 'SshPolicyFile (cli sample): %s' % res.error_text)
-    recs = [p for p in res.prints if isinstance(p, list) and p and isinstance(p[0], dict) and 'obj' in p[0]]
-    common.require(recs and len(recs[0]) == len(sample), 'TLC did not emit the sample expectations')
-    for r in recs[0]:
-        want_of[tuple(r['file'] or [])] = r['obj']
+    sample = rnd.sample(sorted(expected), min(n, len(expected)))
+    want_of = expected
     # the server every sampled policy is applied to: what the 'enc' line lists, ed25519 + rsa-sha2-512 host keys (RSA 3072), GEX 3072
     server = dict(kex=['curve25519-sha256', 'diffie-hellman-group-exchange-sha256'], key=['ssh-ed25519', 'rsa-sha2-512'], enc=['aes256-ctr', 'aes128-ctr'],
                   mac=['hmac-sha2-256-etm@openssh.com'])
